@@ -67,6 +67,7 @@ type rOutcome struct {
 	bss   [][]byte
 	pan   interface{}
 	fault uintptr // write fault inside the read-only arena (0: none)
+	guard bool    // … the fault hit a guard page right behind an argument (over-read / over-write)
 	alias bool    // a string result shares memory with a []byte input
 	hash  uint64  // content hash at return time
 }
@@ -201,7 +202,7 @@ var readerFns = []string{
 	"bitmap.Rank64", "bitmap.Rank128", "bitmap.Select32", "bitmap.Select32R64", "bitmap.NextOne", "bitmap.PrevOne",
 	"bitmap.Slice", "bitmap.ToArray", "bitmap.Get", "bitmap.Get1", "bitmap.Getw", "bitmap.SafeGet", "bitmap.FromStr32",
 	"bitmap.IndexRank64", "bitmap.IndexRank128", "bitmap.IndexSelect32", "bitmap.IndexSelect32R64", "bitmap.Join", "bitmap.Of",
-	"bitmap.OfMany", "bitmap.TailGet", "bitmap.Fmt",
+	"bitmap.OfMany", "bitmap.TailGet", "bitmap.Fmt", "bitmap.OfUnsorted",
 	"bmtree.PathToIndex", "bmtree.PathToIndexLoose", "bmtree.IndexToPath", "bmtree.AllPaths", "bmtree.Decode",
 	"bmtree.PathOf", "bmtree.PathsOf", "bmtree.PathLen", "bmtree.PathStr",
 	"bitstr.New", "bitstr.Len", "bitstr.Cmp", "bitstr.CmpUpto", "bitstr.StrCmpUpto",
@@ -226,6 +227,7 @@ func execOp(w *world, op ROp, viaValue bool, poison uint64) (out rOutcome) {
 			out = rOutcome{pan: r}
 			if addr, ok := faultAddr(r); ok && w.arena.contains(addr) {
 				out.fault = addr
+				out.guard = w.arena.inGuard(addr)
 			}
 			out.hash = out.contentHash()
 		}
@@ -376,6 +378,8 @@ func execBitmap(w *world, op ROp, viaValue bool) (out rOutcome) {
 		out.words = bitmap.Of(b.pos, int32(nbits))
 	case "bitmap.OfMany":
 		out.words = bitmap.OfMany(b.segs, b.sizes)
+	case "bitmap.OfUnsorted":
+		out.words = bitmap.Of(b.unsorted, int32(nbits))
 	case "bitmap.TailGet":
 		// queries on a TailBitmap that nobody mutates any more
 		end := b.tail.Offset + 64*int64(len(b.tail.Words))
